@@ -10,7 +10,7 @@ from c07 import _replay_files, _replay_cmd, replay  # noqa: F401
 
 LEVEL = "model_checking"
 
-_ID_RE = re.compile(rb"\[ref: ([0-9]{1,10})\]|ref = ([0-9]{1,10})[;,]")
+_ID_RE = re.compile(rb"\[ref: ([0-9]{1,10})\]|ref = ([0-9]{1,10})(?:u32)?[;,]")
 
 
 def max_id(src):
